@@ -111,7 +111,10 @@ pub fn mk_delivery(nonblocking: bool) -> (SignalDelivery<UnixStream, SignalOnly>
     // closed flag, then the ids mutex.  The interrupt filters need these numbers
     // as *concrete* values (read back from the heap they would be symbolic for
     // CBMC and every point would carry a nested copy).
-    unsafe { X::base_var = vshim::ST::nvars_all };
+    unsafe {
+        X::base_var = vshim::ST::nvars_all;
+        X::arcs_before = libc::vshim::sync::arcs_created();
+    }
     let p = ok(UnixStream::pair());
     assert!(p.is_some(), "C09: pair failed");
     let (r, w) = p.unwrap();
@@ -162,7 +165,8 @@ pub mod X {
     pub static mut base_var: usize = 0;
     pub static mut lost: bool = false;
     pub static mut direct: bool = false;
-    pub static mut action: Option<libc::vshim::sync::Arc<dyn Fn(&libc::siginfo_t) + Send + Sync>> = None;
+    pub static mut action: Option<&'static libc::vshim::sync::ActionFn<'static>> = None;
+    pub static mut arcs_before: usize = 0;
     pub static mut stranded: bool = false;
     pub static mut nested_consumer_runs: u32 = 0;
     pub static mut handle: *const super::Handle = core::ptr::null();
@@ -195,8 +199,8 @@ fn full_delivery() {
             let mut info: siginfo_t = core::mem::zeroed();
             info.si_signo = SA;
             vshim::delivery_enter();
-            match &X::action {
-                Some(a) => (**a)(&info),
+            match X::action {
+                Some(a) => a(&info),
                 None => {}
             }
             vshim::delivery_exit();
@@ -211,7 +215,9 @@ fn full_delivery() {
 /// consumer and at every access to the watched signal's slot
 fn interrupt_with_delivery(kind: u8, var: usize) {
     unsafe {
-        if !(kind == vshim::OP_SYS || var == X::slot_var) {
+        // the access to the next slot is the first point after the scan has
+        // swapped the watched slot
+        if !(kind == vshim::OP_SYS || var == X::slot_var || var == X::slot_var + 1) {
             return;
         }
     }
@@ -266,7 +272,8 @@ pub mod proofs {
             kani::cover!(be::slot_var(d, SA as usize) == X::slot_var && be::closed_var(h) == X::closed_var, "the shim words of the watched slot and of the closed flag were located");
             X::handle = h;
             X::delivery = d;
-            X::action = reg::action_of(SA, 0);
+            // the first registry Arc created by with_pipe is SA's exfiltrating action
+            X::action = libc::vshim::sync::action_by_arc_id(X::arcs_before);
             X::direct = true;
             assert!(X::action.is_some(), "C09: add_signal did not register an action for the watched signal");
             vshim::HOOKS.block = block_hook_nest;
@@ -277,6 +284,7 @@ pub mod proofs {
     /// (read / drain / scan); the next iteration must not sleep on an empty pipe
     /// with that signal unreported.
     #[kani::proof]
+    #[kani::stub(core::fmt::write, crate::common::no_fmt_write)]
     #[kani::unwind(6)]
     pub fn c09_nest_delivery_inside_consumer() {
         let (mut d, h) = mk_delivery(false);
@@ -286,10 +294,7 @@ pub mod proofs {
         if spurious {
             unsafe { K::fds[PAIR_WRITE as usize].fill = 1 };
         } else {
-            // one end-to-end delivery through the real dispatcher
-            unsafe { X::direct = false };
             full_delivery();
-            unsafe { X::direct = true };
         }
         unsafe { vshim::HOOKS.interrupt = interrupt_with_delivery };
         vshim::set_mode_nest(1, 1, 0);
@@ -311,10 +316,15 @@ pub mod proofs {
     /// middle of the delivering action; afterwards it must not sleep with the
     /// signal unreported.
     #[kani::proof]
+    #[kani::stub(core::fmt::write, crate::common::no_fmt_write)]
     #[kani::unwind(6)]
     pub fn c09_nest_consumer_inside_delivery() {
         let (mut d, h) = mk_delivery(false);
         arm(&mut d, &h);
+        // the other thread may have been woken by an earlier, already reported event
+        if kani::any() {
+            unsafe { K::fds[PAIR_WRITE as usize].fill = 1 };
+        }
         unsafe { vshim::HOOKS.interrupt = interrupt_with_consumer };
         vshim::set_mode_nest(1, 1, 0);
         full_delivery();
@@ -331,6 +341,7 @@ pub mod proofs {
 
     /// C11: close() lands anywhere inside one poll_signal() call of an async adapter.
     #[kani::proof]
+    #[kani::stub(core::fmt::write, crate::common::no_fmt_write)]
     #[kani::unwind(6)]
     pub fn c11_nest_close_inside_poll() {
         let (d, h) = mk_delivery(true);
@@ -385,6 +396,7 @@ pub mod proofs {
 
     /// C11: close() lands anywhere inside a blocking wait: the consumer is not left asleep.
     #[kani::proof]
+    #[kani::stub(core::fmt::write, crate::common::no_fmt_write)]
     #[kani::unwind(6)]
     pub fn c11_nest_close_inside_wait() {
         let (mut d, h) = mk_delivery(false);
@@ -408,17 +420,17 @@ pub mod proofs {
         core::mem::forget((d, h));
     }
 
+
     /// C10 (sequential): a burst of deliveries, batches: never more yields than
     /// deliveries, a burst collapses to one report, a reported delivery is not
     /// reported again, a later delivery is.
     #[kani::proof]
+    #[kani::stub(core::fmt::write, crate::common::no_fmt_write)]
     #[kani::unwind(6)]
     pub fn c10_seq_counts_signal_only() {
         let (mut signals, h) = mk_delivery(false);
         arm(&mut signals, &h);
-        unsafe { X::direct = false };
-        full_delivery(); // end to end through the dispatcher
-        unsafe { X::direct = true };
+        full_delivery();
         let burst: bool = kani::any();
         if burst {
             full_delivery();
